@@ -49,6 +49,8 @@ F = [
   "undo of a cell style change re-applies the old style as explicit formatting, losing the cell's link to its named style; undoing an earlier update of that named style then no longer reverts the cell", []),
 ]
 
+F.append(("rename-after-case-variant-name", case([{"RenameSheet": [0, "sheet1"]}, {"NameNew": {"name":"nm1","scope":None,"formula":"Sheet1!$A$1:$B$3"}}, {"DuplicateSheet": 0}, {"RenameSheet": [1, "New name"]}]),
+  "with a sheet renamed to a case variant of its old name (Sheet1 -> sheet1), a defined name spelled with the old case is retargeted to a different sheet when another sheet is renamed and the rename undone", []))
 register("C01", "histories", [(slug, c, what, avoid, slug == "input-implies-format") for slug, c, what, avoid in F])
 
 F2 = [
